@@ -412,11 +412,25 @@ def r5(p, rep):
                 n = arg.args[1].value if len(arg.args) > 1 and isinstance(arg.args[1], ast.Constant) else None
                 ok = n == NUMPY_POSITIONAL_OUT[name]
             rep.add("C09.R5", key, r.site, ok, f"np.{name} wrapped by {wrapped}: {ARITY_WRAPPERS[wrapped]}" if ok else f"np.{name} has {NUMPY_POSITIONAL_OUT[name]} inputs but _fixed_arity allows {n}")
-    # the wrappers themselves do what the table says
-    f = p.func("_fixed_arity.inner", "adapter._util")
-    raises = [n for n in walk_no_nested(f.node) if isinstance(n, ast.Raise)]
-    tests = [n for n in walk_no_nested(f.node) if isinstance(n, ast.If) and "len(" in norm(n.test) and isinstance(n.test, ast.Compare) and isinstance(n.test.ops[0], ast.NotEq)]
-    rep.add("C09.R5", f"{f.qualname}:guard", f.loc, bool(raises and tests), "raises unless len(args) == n")
+    # the wrapper itself: the wrapped op is only called when exactly `n` operands were given, otherwise it raises
+    outer = p.func("_fixed_arity", "adapter._util")
+    inners = [g for g in p.funcs.values() if g.parent is outer]
+    if not inners:
+        raise AnalysisError("unrecognised idiom: _fixed_arity defines no wrapper function")
+    from sa.cfg import CFG
+
+    opname, nname = outer.params[0], outer.params[1]
+    for g in inners:
+        star = g.node.args.vararg.arg if g.node.args.vararg else None
+        calls = [c for c in walk_no_nested(g.node) if isinstance(c, ast.Call) and isinstance(c.func, ast.Name) and c.func.id == opname]
+        cfg = CFG(g.node)
+        ok = bool(calls) and star is not None
+        for c in calls:
+            facts = [(norm(t), pol) for t, pol in cfg.guards_of_ast(c)]
+            eq = (f"len({star}) == {nname}", True) in facts or (f"{nname} == len({star})", True) in facts or (f"len({star}) != {nname}", False) in facts or (f"{nname} != len({star})", False) in facts
+            ok = ok and eq
+        raises = [r for r in walk_no_nested(g.node) if isinstance(r, ast.Raise)]
+        rep.add("C09.R5", f"{outer.qualname}:guard", g.loc, ok and bool(raises), f"op(*{star}) is only reached when len({star}) == {nname}; otherwise raises" if ok and raises else "the arity wrapper forwards operand lists of the wrong length")
     rep.assume("numpy ufuncs accept `out` as the positional argument after their nin inputs (NUMPY_POSITIONAL_OUT table)")
 
 
